@@ -7,7 +7,7 @@ ASSUMPTIONS = [
     'with payload_override nested inside the block the override receives the payload after bit 7 was set (client.py:2238-2245); a literal override transmits the caller\'s bytes',
     'entry points of the simple services are modelled at call level (13 entry points + the unlock composite); the send_request part is common to all 80',
 ]
-RULE = ('hist suite: random well-nested histories (enter/leave suppress_positive_response with wait_nrc on/off, normally and by exception, nested with '
+RULE = ('raw suite: caller-built Request objects with every sub-function byte (bit 7 possibly set already) x 3 services x wait_nrc, sent inside a suppress block and again after it (same object). hist suite: random well-nested histories (enter/leave suppress_positive_response with wait_nrc on/off, normally and by exception, nested with '
         'payload_override, calls inside and after the block with silence / positive / negative / 0x78-chains / invalid replies). Compared op by op with udsdrv; '
         'the property is also evaluated on the real client against an independent construction of the request frames. distinct = distinct history lines; '
         'non-trivial = at least one call inside a block')
@@ -117,4 +117,63 @@ def suite_hist(ctx):
     return s
 
 
-SUITES = [suite_hist]
+def suite_raw(ctx):
+    """caller-built Request objects through send_request: every sub-function byte 0..0xFF (bit 7 possibly already set), inside and outside a suppress block,
+    the same object sent again after the block"""
+    from .. import clientlib as cl
+    from udsoncan import Request
+    from ..core import onat, b01
+    s = Suite('raw')
+    rng = ctx.rng
+    svcs = cl.services_by_name()
+    lines, impl = [], []
+    sfs = list(range(256)) if ctx.thorough else sorted(set([0, 1, 0x7E, 0x7F, 0x80, 0x81, 0xC0, 0xFE, 0xFF] + [rng.randrange(256) for _ in range(40)]))
+    for sf in sfs:
+        for svc in ('TesterPresent', 'ECUReset', 'RoutineControl'):
+            for wnrc in (False, True):
+                data = b'\x12\x34' if svc == 'RoutineControl' else None
+                req = Request(svcs[svc], subfunction=sf, data=data)
+                before = dict(vars(req))
+                cfg = cl.Cfg(rt=200, p2=50, p2s=80, spr=True, wnrc=wnrc)
+                client, conn = cl.make_client(cl.Cfg(rt=200, p2=50, p2s=80))
+                sid = svcs[svc]._sid
+                rec = {'site': 'send_request', 'service': svc, 'subfunction': sf, 'wait_nrc': wnrc}
+                # ---- inside the block
+                conn.script = []
+                with client.suppress_positive_response(wait_nrc=wnrc):
+                    obs = cl.observe(conn, lambda: client.send_request(req))
+                sends = [o[1] for o in conn.log if o[0] == 'send']
+                want = bytes([sid, sf | 0x80]) + (data or b'')
+                line = 'send %s svc=%s sf=%d rspr=0 data=%s timeout=- arr=-' % (cfg.line(), svc, sf, core.ohx(data))
+                lines.append(line)
+                impl.append(obs)
+                s.distinct.add(line)
+                if not sends or sends[0] != want:
+                    s.fail(dict(rec, input=line, observed=(sends[0].hex() if sends else 'nothing sent'), required='%s (bit 7 of the sub-function set, the rest unchanged)' % want.hex()))
+                if ' out=none' not in obs:
+                    s.fail(dict(rec, input=line, observed=obs, required='None is returned'))
+                if not wnrc and any(o[0] == 'wait' for o in conn.log):
+                    s.fail(dict(rec, input=line, observed='wait_frame called', required='no read when not waiting for an NRC'))
+                if dict(vars(req)) != before:
+                    s.fail(dict(rec, input=line, observed='request object modified: %s' % {k: v for k, v in vars(req).items() if before.get(k) != v}, required='the caller\'s Request is left as it was'))
+                # ---- the same object after the block: bit 7 as the caller wrote it, the reply is read
+                reply = bytes([sid + 0x40, sf & 0x7F, 0x12, 0x34])
+                conn.script = [(1, reply)]
+                cfg2 = cl.Cfg(rt=200, p2=50, p2s=80)
+                obs2 = cl.observe(conn, lambda: client.send_request(req))
+                sends = [o[1] for o in conn.log if o[0] == 'send']
+                want2 = bytes([sid, sf]) + (data or b'')
+                line2 = 'send %s svc=%s sf=%d rspr=0 data=%s timeout=- arr=%s' % (cfg2.line(), svc, sf, core.ohx(data), cl.arrivals_str([(1, reply)]))
+                lines.append(line2)
+                impl.append(obs2)
+                if not sends or sends[0] != want2:
+                    s.fail(dict(rec, input=line2 + '  (after the block, same Request object)', observed=(sends[0].hex() if sends else 'nothing sent'), required=want2.hex()))
+                elif 'out=resp' not in obs2:
+                    s.fail(dict(rec, input=line2 + '  (after the block, same Request object)', observed=obs2, required='the reply is read and returned'))
+                s.evaluations += 2
+    core.compare(s, lines, core.drv_batch(lines), impl, lambda i, o: True)
+    s.exhaustive = ctx.thorough
+    return s
+
+
+SUITES = [suite_hist, suite_raw]
